@@ -84,7 +84,7 @@ def handle (op : String) (args : List String) : Option String :=
     | some sl =>
       let cs := (sl.filter (·.kind == .comment)).map fun s =>
         -- a line comment slice contains its '\n'; the lexer's token does not
-        if startsWith s.text "//".toList && s.text.getLast? == some '\n' then { s with text := s.text.dropLast } else s
+        if startsWith s.text ['/', '/'] && s.text.getLast? == some '\n' then { s with text := s.text.dropLast } else s
       pure (encSlices (some cs))
   | "cm.slices", [t] => do
     let t ← decChars t
@@ -165,8 +165,8 @@ def handle (op : String) (args : List String) : Option String :=
     else if m == "m" then
       if commentsPreservedUnordered a b then pure "ok"
       else
-        let sa := (a.map flatComment).mergeSort leChars
-        let sb := (b.map flatComment).mergeSort leChars
+        let sa := sortTexts (a.map flatComment)
+        let sb := sortTexts (b.map flatComment)
         match firstWordDiff 0 sa sb with
         | none => pure "diff:?:-:-"
         | some (i, x, y) => pure s!"diff:{i}:{encOptChars x}:{encOptChars y}"
@@ -181,7 +181,7 @@ def handle (op : String) (args : List String) : Option String :=
         | some (i, w) => pure s!"missing:{i}:{encChars w}"
     else if m == "m" then
       if wordsPreservedUnordered a b then pure "ok"
-      else match firstMissing ((a.flatMap commentWords).mergeSort leChars) ((b.flatMap commentWords).mergeSort leChars) with
+      else match firstMissing (sortTexts (a.flatMap commentWords)) (sortTexts (b.flatMap commentWords)) with
         | none => pure "diff:?:-"
         | some (i, w) => pure s!"missing:{i}:{encChars w}"
     else none
